@@ -15,8 +15,16 @@ def filt(repo_src, dst):
     d = f.get_function(N, 'BR')
     txt += '/* M2: BR verbatim from %s line %d */\nstatic inline u_int64_t BR(u_int64_t x, u_int64_t domainPow)\n%s\n' % (N, d['line'], d['body'])
     f.note('M2-cify', N, 1, 0, 0, 'BR (verbatim)')
+    # the branch that separates the plain transposition from the scaling (final inverse) path lives inside the outlined batch loop:
+    # its condition is lifted, verbatim, into the monitor call, so that the monitor sees the code's own test and not a restatement
+    full = cify.cify(f, N, 'NTT_Goldilocks::NTT_iters', 'NTT_Goldilocks_NTT_iters', ren, extra_rules=[(r'Goldilocks::parcpy', 'Goldilocks_parcpy')])
+    bbody, _bh = cify.loop_body(full, 1)
+    mc = re.findall(r'if \(([^{};]+)\)\s*\{\s*for \(u_int64_t x = 0; x < batchSize', bbody)
+    # first match = the test guarding the memcpy transposition; the later ones (if (extend) ..) are inside its else branch
+    if len(mc) < 1 or 'memcpy' not in bbody.split(mc[0], 1)[1].split('else', 1)[0]:
+        raise extract.ExtractError('M2-outline: NTT_iters: the test that selects the plain (memcpy) transposition path was not found in the batch loop')
     it = cify.cify(f, N, 'NTT_Goldilocks::NTT_iters', 'NTT_Goldilocks_NTT_iters', ren,
-                   cut_loops={1: 'vf_pass(s, sInc, maxBatchPow, domainPow, inverse, a, a2, batchSize, nBatches, size);'},
+                   cut_loops={1: 'vf_pass(s, sInc, maxBatchPow, domainPow, inverse, a, a2, batchSize, nBatches, size, (%s));' % mc[0].strip()},
                    extra_rules=[(r'Goldilocks::parcpy', 'Goldilocks_parcpy')])
     if 'vf_pass(' not in it or 'root(' in it:
         raise extract.ExtractError('M2-outline: NTT_iters: the batch loop was not cut as expected')
